@@ -349,6 +349,30 @@ func generate(thorough bool) []layout {
 			out = append(out, layout{Name: "fail-" + a + "+" + b, Entries: []entry{mk(10, a), mk(20, "ok"), mk(30, b), mk(40, "ok")}})
 		}
 	}
+	if thorough {
+		// three misbehaving plugins around two healthy ones, every vector of modes; and the healthy ones first
+		for _, a := range modes {
+			for _, b := range modes {
+				for _, c := range modes {
+					out = append(out, layout{Name: "fail-" + a + "+" + b + "+" + c, Entries: []entry{mk(10, a), mk(20, "ok"), mk(30, b), mk(40, "ok"), mk(50, c)}})
+				}
+				out = append(out, layout{Name: "fail-behind-" + a + "+" + b, Entries: []entry{mk(10, "ok"), mk(20, "ok"), mk(30, a), mk(40, b)}})
+			}
+		}
+		// every failure mode with every drop-in selection for the healthy plugin behind it
+		for _, m := range modes {
+			for mask := 0; mask < 4; mask++ {
+				d := map[string]string{"unrelated.conf": "unrelated"}
+				if mask&1 != 0 {
+					d["50-ok-p50.conf"] = "specific:50-ok-p50"
+				}
+				if mask&2 != 0 {
+					d["ok-p50.conf"] = "generic:50-ok-p50"
+				}
+				out = append(out, layout{Name: fmt.Sprintf("fail-%s-dropins-%d", m, mask), Entries: []entry{mk(10, m), mk(50, "ok")}, Dropins: d})
+			}
+		}
+	}
 	return out
 }
 
